@@ -220,6 +220,9 @@ def main():
     # --- metrics limits (C08) and default histogram boundaries (C07)
     A = "sdk/include/opentelemetry/sdk/metrics/state/attributes_hashmap.h"
     nat_const("kAggregationCardinalityLimit", A, r"kAggregationCardinalityLimit\s*=\s*(\d+)\s*;")
+    sys.path.insert(0, os.path.dirname(os.path.abspath(__file__)))
+    from c08_consts import emit_c08
+    emit_c08(emit, find, join_literals, Missing)
 
     # --- B3 / Jaeger propagators (C16): id sizes and the hex-string lengths the B3 buffers are derived from
     nat_const("kTraceIdBytes", "api/include/opentelemetry/trace/trace_id.h", r"static\s+constexpr\s+int\s+kSize\s*=\s*(\d+)\s*;", "TraceId::kSize")
@@ -251,6 +254,16 @@ def main():
     sys.path.insert(0, os.path.dirname(os.path.abspath(__file__)))
     from c11_consts import emit_c11
     emit_c11(emit, find, src, Missing)
+
+    # --- root-span marker key of an explicit parent Context (C05): see tools/c05_consts.py
+    sys.path.insert(0, os.path.dirname(os.path.abspath(__file__)))
+    from c05_consts import emit_c05
+    emit_c05(emit, find, join_literals, Missing)
+
+    # --- severities passed on by the Trace()..Fatal() wrappers of logs::Logger (C13): see tools/c13_consts.py
+    sys.path.insert(0, os.path.dirname(os.path.abspath(__file__)))
+    from c13_consts import emit_c13
+    emit_c13(emit, find, src, Missing)
 
     text = "\n".join(out) + "\n"
     old = None
